@@ -147,8 +147,8 @@ class LazyWorld:
         for st in m.tree.body:
             if isinstance(st, ast.Expr) and isinstance(st.value, ast.Constant):
                 continue
-            if isinstance(st, ast.FunctionDef) and not st.name.startswith("_load"):
-                continue           # the convenience wrappers are not needed
+            if isinstance(st, ast.FunctionDef) and not st.name.startswith("_"):
+                continue           # the public convenience wrappers are not needed
             if isinstance(st, (ast.Import, ast.ImportFrom)) and getattr(st, "module", None) == "__future__":
                 continue
             I.exec_stmt(st, fr, sp.true)
@@ -161,7 +161,7 @@ class LazyWorld:
         # the property objects the registrations installed on the atom classes (whatever their implementation)
         self.delayed_props = {}
         for cq in ("core.Element", "core.Isotope", "core.Ion"):
-            for k, v in I.classes[cq].attrs.items():
+            for k, v in I.get_class(cq).attrs.items():
                 if isinstance(v, PropertyVal) and any(k in r.names for r in regs):
                     self.delayed_props[(cq, k)] = v
         self.boot_snapshot = self.snapshot()
@@ -544,6 +544,8 @@ class Explorer:
             elif isinstance(v, (dict, list, Vec)):
                 if id(v) in acc:
                     return
+                if isinstance(v, Vec) and getattr(v, "readonly", False):
+                    return          # an array marked read-only cannot be edited through either table
                 acc[id(v)] = v
                 for x in (v.values() if isinstance(v, dict) else v):
                     reach(x, acc, depth + 1)
